@@ -17,10 +17,12 @@ from ..common import Failure
 from ..vloop import run_virtual
 
 S = 1_000_000
-# (durations by job, graceful time, number of queues, messages_limit, tasks_limit, number of jobs[, suspending consume-subscribers])
+# (durations by job, graceful time, number of queues, messages_limit, tasks_limit, number of jobs[, suspending consume-subscribers
+#  [, actors that dispose of their message themselves]])
 SCENARIOS = [([0.0, 0.05, 0.3], 0.01, 1, None, 2, 4), ([0.0], 0.0, 1, None, 2, 4), ([0.2, 0.0, 0.05], 0.1, 1, None, 2, 4),
              ([0.0, 0.05, 0.3], 0.01, 2, None, 3, 8), ([0.05], 0.0, 2, 1, 2, 4), ([0.0, 0.05, 0.3], 0.01, 2, 2, 3, 6), ([0.05], 0.0, 2, 2, 3, 6),
-             ([0.0, 0.05, 0.3], 0.01, 1, None, 2, 4, True), ([0.05], 0.0, 2, 2, 3, 6, True)]
+             ([0.0, 0.05, 0.3], 0.01, 1, None, 2, 4, True), ([0.05], 0.0, 2, 2, 3, 6, True),
+             ([0.0], 0.0, 1, None, 2, 4, False, True), ([0.05, 0.0], 0.0, 1, None, 3, 6, False, True)]
 
 
 class _LogDict(dict):
@@ -35,7 +37,7 @@ class _LogDict(dict):
         return super().__getitem__(k)
 
 
-async def one_run(loop, which, k, durs, graceful, n_queues=1, limit=None, tasks_limit=2, n_jobs=4, subscribers=False):
+async def one_run(loop, which, k, durs, graceful, n_queues=1, limit=None, tasks_limit=2, n_jobs=4, subscribers=False, eager=False):
     from repid import BasicConverter, Connection, InMemoryBucketBroker, Job, Queue, Router, Worker
     from repid._runner import _Runner
     if which == "redis":
@@ -87,6 +89,20 @@ async def one_run(loop, which, k, durs, graceful, n_queues=1, limit=None, tasks_
 
     router = Router()
 
+    from repid import MessageDependency
+
+    async def act_eager(jid: int, m: MessageDependency) -> int:
+        # every second job disposes of its message itself (eager response), half of them after some work
+        ran.append(jid)
+        d = durs[jid % len(durs)]
+        if d and jid % 4 == 0:
+            await asyncio.sleep(d)
+        if jid % 2 == 0:
+            await m.ack()
+        if jid % 3 == 0:
+            await m.nack()
+        return jid
+
     async def act(jid: int) -> int:
         ran.append(jid)
         d = durs[jid % len(durs)]
@@ -96,7 +112,7 @@ async def one_run(loop, which, k, durs, graceful, n_queues=1, limit=None, tasks_
             raise ValueError("fails")
         return jid
     for qn in range(1, n_queues + 1):
-        router.actor(act, name=f"a{qn}", queue=f"q{qn}", converter=BasicConverter)
+        router.actor(act_eager if eager else act, name=f"a{qn}", queue=f"q{qn}", converter=BasicConverter)
         await Queue(f"q{qn}", _connection=conn).declare()
     for i in range(1, n_jobs + 1):
         qn = 1 + (i % n_queues)
@@ -105,6 +121,7 @@ async def one_run(loop, which, k, durs, graceful, n_queues=1, limit=None, tasks_
     worker = Worker(routers=[router], _connection=conn, handle_signals=[signal.SIGINT], graceful_shutdown_time=graceful,
                     tasks_limit=tasks_limit, **kw)
     fired: dict = {}
+    loop.signal_handlers.clear()         # (a run that was never told to stop is cut by the guard below and leaves its handler behind)
 
     t0 = loop.time()
 
@@ -133,14 +150,19 @@ async def one_run(loop, which, k, durs, graceful, n_queues=1, limit=None, tasks_
     if which == "redis":
         pl = {i: [x[0] for x in p] for i, p in w.places().items()}
         inflight = [i for i, p in pl.items() if "processing" in p]
+        # a name in a queue whose data is gone (the message was acknowledged AND given back), data left with no name anywhere
+        data = w.hashes()
+        ghosts = sorted([i for i in pl if i not in data] + [-i for i in data if i not in pl])
     else:
         st = rabbitrun.w_state(w)
         pl = {i: [x[0] for x in p] for i, p in st["places"].items()}
         inflight = [i for i, p in pl.items() if "unacked" in p]
+    if which != "redis":
+        ghosts = []
     dup = [i for i, p in pl.items() if len(p) != 1]
     not_received = sorted(r[1] for cid, r in returned.items() if r[0] > received.get(cid, 0))
     return {"k": k, "durs": durs, "graceful": graceful, "queues": n_queues, "messages_limit": limit, "tasks_limit": tasks_limit, "jobs": n_jobs,
-            "subscribers": subscribers, "err": err, "fired": fired.get("it"), "inflight": inflight, "dup": dup,
+            "subscribers": subscribers, "eager": eager, "err": err, "fired": fired.get("it"), "inflight": inflight, "dup": dup, "ghosts": ghosts,
             "places": pl, "ran": list(ran), "handed": dict(handed), "not_received": not_received}
 
 
@@ -155,9 +177,9 @@ def worker_stop_cuts(ctx, res) -> None:
         # the window in which the worker consumes starts later on RabbitMQ (its start-up takes some ninety iterations)
         for which, k0 in (("redis", 0), ("rabbit", 70)):
             for durs, graceful, nq, limit, tl, nj, *subs in SCENARIOS:
-                for k in range(k0, k0 + ctx.scale(90, 180) + (40 if subs else 0), 1):
+                for k in range(k0, k0 + ctx.scale(90, 180) + (40 if subs and subs[0] else 0), 1):
                     loop.max_iterations = loop.iteration + 400_000
-                    o = await one_run(loop, which, k, durs, graceful, nq, limit, tl, nj, bool(subs))
+                    o = await one_run(loop, which, k, durs, graceful, nq, limit, tl, nj, bool(subs and subs[0]), len(subs) > 1 and subs[1])
                     o["broker"] = which
                     outs.append(o)
     try:
@@ -169,10 +191,16 @@ def worker_stop_cuts(ctx, res) -> None:
             res.count("worker_stop_runs_where_the_stop_came_after_the_end")      # the worker was idle: the hook never fired
             continue
         res.count("worker_stop_cut_runs")
-        res.add_case(f"wstop:{o['broker']}:{o['durs']}:{o['graceful']}:{o['queues']}:{o['messages_limit']}:{o['subscribers']}:{o['k']}:{sorted(o['places'].items())}", bool(o["ran"]))
+        res.add_case(f"wstop:{o['broker']}:{o['durs']}:{o['graceful']}:{o['queues']}:{o['messages_limit']}:{o['subscribers']}:{o['eager']}:{o['k']}:{sorted(o['places'].items())}", bool(o["ran"]))
         if o["err"]:
             res.failures.append(Failure("worker_on_broker_did_not_stop", f"{o['broker']}: run() did not return after the stop at iteration {o['k']}: {o['err']}",
                                         {"worker_stop_cut": {k: v for k, v in o.items() if k != "places"}}, None))
+            continue
+        if o["ghosts"]:
+            res.failures.append(Failure("worker_stop_completed_and_returned", f"{o['broker']}: stop at loop iteration {o['fired']} (graceful {o['graceful']} s): after "
+                                        f"run() returned, message(s) {[g for g in o['ghosts'] if g > 0]} are in a queue with their data deleted (acknowledged AND given "
+                                        f"back), data without a place: {[-g for g in o['ghosts'] if g < 0]}; places {o['places']} (executed {o['ran']})",
+                                        {"worker_stop_cut": o}, None))
             continue
         if not o["inflight"] and not o["dup"]:
             continue
